@@ -9,6 +9,18 @@ CLAIMED = {
  "C10": ("runtime monitor on parse_svg_path (all aliases) judged against an independent SVG 1.1 path-BNF parser; exhaustive short strings + token combinations + random/mutated strings; print->parse round-trip monitor",
          "Every call of the real parser made by the workload is judged by a wrapper against a reference recursive-descent parser of the SVG path BNF: exhaustive over all strings up to length 6/7 on a reduced alphabet and over number-form x separator combinations, random beyond. Held-on-observed, not a proof.",
          "Trusts the reference grammar implementation (self-tested, 150 lines) and Python float() for numeric values.", "3/C10"),
+ "C09": ("runtime monitors (wrappers) on every SVGPath rewrite method, as_cmd_seq and the basic-shape as_path, judged by an independent path interpreter: same subpaths/start/end/closedness, control-point equality or Hausdorff + signed-area fallback, arc pieces checked in the unit-circle frame; exhaustive command sequences <=3/<=4 + random + special cases",
+         "Every rewrite call the workload makes on the real SVGPath is compared with a reference interpretation of the path before and after. Exhaustive over all 20-command sequences up to length 3 (quick) / 4 (thorough) on a lattice; random beyond. Held-on-observed.",
+         "Trusts ref/pathgeom.py + ref/curvecmp.py (self-tested). Zero-extent subpaths are not matched. One open known finding (standalone arcs_to_cubics followed by shorthand).", "3/C09"),
+ "C11": ("runtime monitors and icontract postconditions on parse_svg_transform, Affine2D.{tostring,@,compose_ltr,map_point,inverse,rect_to_rect,decompose_*} judged with exact rational arithmetic, an independent transform-list BNF parser and the spec's viewport algorithm plus its defining consequences",
+         "Each executed call is judged against exact-rational reference results over thousands of grammar-derived transform lists, structured matrices and rectangle pairs x all alignments. Evidence on executed calls, not a proof of the polynomial identities.",
+         "Trusts ref/affine.py. Exceptions from decompositions on singular/ill-conditioned input are counted as rejected.", "3/C11"),
+ "C12": ("runtime monitor on arc_to_cubic (all aliases) and on SVGPath.arcs_to_cubics: every produced cubic sampled at 33 points in the unit-circle frame of the reference ellipse (F.6.5/F.6.6), continuity, exact end point, monotone sweep, total angle",
+         "Every arc conversion executed by the workload (log-uniform magnitudes 1e-3..1e5, all flags, too-small/exactly-fitting/zero/negative radii, coincident and nearly coincident end points, relative arcs in paths) is judged against the true ellipse. Held-on-observed.",
+         "Trusts ref/pathgeom.arc_center; arcs with coordinate/radius ratio > 1e9 are out of domain.", "3/C12"),
+ "C13": ("runtime monitors on svg_pathops._do_pathop/remove_overlaps and the shape-level union/intersection/difference/SVGPath.remove_overlaps: point-sampled winding-number oracle over reference-flattened operands, result checked under both nonzero and evenodd; wrong answers reproduced by a direct engine call are attributed to skia-pathops (known finding)",
+         "Every boolean operation executed by the workload is judged at ~120 points against the set combination of the operands under their own rules. Held-on-observed; sub-band-width defects are invisible.",
+         "Trusts the winding-number oracle (ref/pathgeom.py) and its 0.4% exclusion band; PathOpsError counts as rejected.", "3/C13"),
 }
 NOT_YET = "check not built yet in this session (build in progress; see DESIGN.md section 8 for the construction order)"
 
